@@ -137,6 +137,16 @@ def run(W, cfg):
         W.ob_close('the first plane rescaled once more gives the same amplitude', q4.amplitude, q.amplitude, tol)
     W.ob_true('original mask untouched', bool((W.concrete(p.mask) == mask).all()))
     W.ob_true('original tilt list untouched', len(p.tilt) == 0)
+    # the rescaled plane is a plane of its own: bookkeeping done on it afterwards (a fitted tilt, an in-place edit of a scalar attribute)
+    # does not reach the original
+    W.ob_true('the rescaled plane has its own tilt list', q.tilt is not p.tilt)
+    q.tilt.append(lt.Tilt(x=0, y=0))
+    W.ob_true('a tilt recorded on the rescaled plane does not appear on the original', len(p.tilt) == 0)
+    q.tilt.pop()
+    if cfg['opd'] == 'scalar':
+        W.ob_true('the rescaled plane has its own scalar OPD array', q.opd is not p.opd)
+    if cfg['amp'] == 'scalar':
+        W.ob_true('the rescaled plane has its own scalar amplitude array', q.amplitude is not p.amplitude)
     if s == 1:
         if cfg['amp'] == 'array':
             W.ob_close('s = 1 is the identity (amplitude)', q.amplitude, A0, tol)
